@@ -39,6 +39,10 @@ CLAIMS.update({
  'C18': ('real Filter.run + real OpenFilterLineage with a capturing client; heartbeat thread under a baton so its wake-up instants are symbolic; oracle START RUNNING* one terminal, COMPLETE iff clean; the present defect is recorded per (ending, stage) in known_findings.json, any other shape is a violation',
          'trusted: baton thread model (heartbeat observes the world only at its wait()); bounds: 6 injection points x 3 kinds + exit messages, <=2-3 heartbeat wake-ups'),
 })
+CLAIMS.update({
+ 'C03': ('real Filter objects (Filter.run/loop_once/process_frames/MQ/ZeroMQ code) in chain / tee / tee-rejoin / join topologies over a simulated network; link delay, processing times, start offsets are z3 integers and the discrete-event scheduler lets z3 decide event order (each path = a region of the timing-parameter space); every filter sees the functional composition incl. frame 0; plus None/{}/Frame/callable contract at unit level',
+         'trusted: simulated ZeroMQ (routing, per-link FIFO, slow-joiner connect delay 40 ms for SUB), zero-time computation between blocking points, delays constant per link (no per-message jitter); bounds: 3-4 frames, 1 free timing parameter per query (quick) / 2 (thorough), ranges d 1-99 ms, speeds 0-3000 ms, offsets 0-2000 ms'),
+})
 NA = {}
 props = [json.loads(l)['id'] for l in open(os.path.join(V, 'properties.jsonl'))]
 checks = []
